@@ -51,7 +51,11 @@ _add(
     ew=True,
 )
 _add("sign floor ceil round isinf isnan isfinite eq ne lt le gt ge", "fresh", ew=True, idx=True)
-_add("ones_like zeros_like empty_like rand_like randn_like full_like", "like", ew=True)
+_add("ones_like zeros_like empty_like full_like", "like", ew=True)
+_add("rand_like randn_like", "like", ew=True, rng=True)
+# stochastic unless told otherwise: F.dropout(x, p, training=True) draws a fresh mask per call
+_add("dropout dropout1d dropout2d dropout3d alpha_dropout feature_alpha_dropout rrelu", "fresh", ew=True, rng="mode")
+_add("bernoulli poisson normal", "fresh", ew=True, rng=True)
 _add("new_zeros new_ones new_empty new_full new_tensor", "like")
 # structural, allocating
 _add("softmax log_softmax cumsum glu", "fresh", red=False, axis=True)
